@@ -427,6 +427,27 @@ def el_count_nonzero(mask, axis=None, **kw):
     return wrap(cnt)
 
 
+def el_clip(a, a_min=None, a_max=None, out=None, **kw):
+    used("numpy.clip: elementwise min(max(x, lo), hi)")
+    if out is not None:
+        raise Unsupported("clip with out=")
+    r = as_earr(a)
+    if a_min is not None:
+        r = elementwise(lambda x, lo: z3.If(_num2(x, lo)[0] < _num2(x, lo)[1], _num2(x, lo)[1], _num2(x, lo)[0]), (r, a_min))
+    if a_max is not None:
+        r = elementwise(lambda x, hi: z3.If(_num2(x, hi)[0] > _num2(x, hi)[1], _num2(x, hi)[1], _num2(x, hi)[0]), (r, a_max))
+    return r
+
+
+def _num2(a, b):
+    if a.sort() != b.sort():
+        if a.sort() == z3.IntSort():
+            a = z3.ToReal(a)
+        if b.sort() == z3.IntSort():
+            b = z3.ToReal(b)
+    return a, b
+
+
 def el_prod(a, axis=None, **kw):
     if isinstance(a, (tuple, list)):
         r = 1
@@ -478,7 +499,7 @@ EL_FUNCS = {
     "diff": el_diff,
     "unique": el_unique,
     "flatnonzero": el_flatnonzero, "stack": el_stack, "repeat": el_repeat, "copy": el_copy,
-    "argsort": el_argsort, "cumsum": el_cumsum, "count_nonzero": el_count_nonzero, "reshape": lambda a, shape, **k: el_reshape(a, shape if isinstance(shape, (tuple, list)) else (shape,)),
+    "clip": el_clip, "argsort": el_argsort, "cumsum": el_cumsum, "count_nonzero": el_count_nonzero, "reshape": lambda a, shape, **k: el_reshape(a, shape if isinstance(shape, (tuple, list)) else (shape,)),
     "where": el_where, "sum": el_sum, "all": el_all, "any": el_any,
     "empty_like": lambda a, dtype=None, **k: el_empty(a.shape, dtype or a.dtype),
     "zeros_like": lambda a, dtype=None, **k: el_zeros(a.shape, dtype or a.dtype),
